@@ -52,6 +52,9 @@ pub fn render_attr(o: &Opts, rng: &mut Rng) -> String {
     }
     if !o.extern_enums.is_empty() {
         items.push(format!("extern_enums({})", o.extern_enums.iter().map(|e| format!("{:?}", e)).collect::<Vec<_>>().join(", ")));
+    } else if rng.chance(35) {
+        // the list form next to the other keys and flags; naming an enum the schema does not have changes nothing
+        items.push("extern_enums(\"NoSuchEnumInTheSchema\")".into());
     }
     if o.other_variant {
         items.push("fragments_other_variant = \"true\"".into());
